@@ -166,8 +166,22 @@ func c14Case(tier string, seed int64, idx int, scratch string) rt.CaseResult {
 	if r.Stats.ConflictCommit > 0 {
 		garbage["conflict-aborted"] = true
 	}
-	// end every open transaction
+	// end every open transaction; through the server the first attempt is made with a context that
+	// is already cancelled (the call does not reach the server): the real end that follows must not
+	// be skipped, or the transaction stays registered and pins the collector's horizon
 	for _, id := range r.M.OpenTxs() {
+		if eo.Mode == dbx.Grpc {
+			if tx := r.Txs[id]; tx != nil {
+				dead, cancel := context.WithCancel(ctxBg)
+				cancel()
+				if derr := tx.Rollback(dead); derr == nil {
+					// a Rollback that says nil has ended the transaction: tell the model
+					r.M.Rollback(id)
+					garbage["rolled-back"] = true
+					continue
+				}
+			}
+		}
 		if m := r.Do(len(steps), seqrun.Step{Op: "rollback", Actor: id}); m != nil {
 			c.Violate(m.Sig, m.Error(), replay)
 			return c
